@@ -5,8 +5,9 @@
     excluded kind is named here:
       - Deque / Anything / NoneField / non-String map keys / non-scalar enum literals: the mapping raises;
       - `multiplesOf = 0`;
-      - OneOf / AllOf / NotField (need the exactness direction), untyped Set, `uniqueItems` on
-        non-scalar or positional items, AnyOf over non-scalar options: corresponded only.
+      - OneOf / AllOf / NotField (need the exactness direction), AnyOf over non-scalar options:
+        corresponded only.
+    Set and `uniqueItems` are inside, under the region's explicit hypothesis `distinctImages`.
   * `regF` / `inAdmitRegion`: (declaration, value)-level region: the value is deeply well-formed and
     outside the known-finding regions (bool stored in a numeric / enum field, value inside the gap
     of a sign-only float bound, required or defaulted
@@ -51,13 +52,13 @@ def fragF : FieldDecl → Bool
   | .boolean => true
   | .enumLit vs => !vs.isEmpty && vs.all enumValOk && jsonNodup vs
   | .enumCls _ names => !names.isEmpty && nodupS names
-  | .seqAny k sz => k == .list && !sz.uniq
-  | .seqOf k f sz => k == .list && fragF f && !sz.uniq
-  | .seqPos k fs _ sz => k == .list && !fs.isEmpty && fragL fs && !sz.uniq
-  | .setAny _ _ => false
-  | .setOf _ _ _ => false
-  | .tupleOf f u => fragF f && !u
-  | .tuplePos fs u => !fs.isEmpty && fragL fs && !u
+  | .seqAny k _ => k == .list
+  | .seqOf k f _ => k == .list && fragF f
+  | .seqPos k fs _ _ => k == .list && !fs.isEmpty && fragL fs
+  | .setAny _ _ => true
+  | .setOf _ f _ => fragF f
+  | .tupleOf f _ => fragF f
+  | .tuplePos fs _ => !fs.isEmpty && fragL fs
   | .mapAny _ => true
   | .mapOf k v _ => isStringField k && fragF v
   | .struct _ fields defaults =>
@@ -112,6 +113,15 @@ def signGap (o : NumOpts) (v : PyVal) : Bool :=
     (o.min.isNone && o.sign == .pos && Q.lt q tiny) || (o.max.isNone && o.sign == .neg && Q.lt negTiny q)
   | none => false
 
+/-- the hypothesis under which `uniqueItems` (always present for a Set) can be promised: the JSON
+    images of the elements are pairwise distinct as JSON values.  Python-distinct elements can have
+    one image (`(1, 2)` and `[1, 2]`, `1` and `1.0` in an untyped position): finding
+    `admits:uniqueItems` -/
+def distinctImages (r : R (List PyVal)) : Bool :=
+  match r with
+  | .ok ys => jsonNodup ys
+  | .error _ => true
+
 def attrPresent (attrs : List (String × PyVal)) (r : String) : Bool :=
   match lookup r attrs with
   | some v => !v.isNone
@@ -126,17 +136,27 @@ def regF (O : Oracles) : FieldDecl → PyVal → Bool
   | .boolean, _ => true
   | .enumLit vs, v => jsonMem v vs
   | .enumCls _ _, _ => true
-  | .seqAny _ _, _ => true
-  | .seqOf _ f _, v => (match seqLike v with | some xs => xs.all (regF O f) | none => false)
-  | .seqPos _ fs _ _, v => (match seqLike v with | some xs => regZip O fs xs | none => false)
-  | .setAny _ _, _ => false
+  | .seqAny _ sz, v => (match seqLike v with
+    | some xs => !sz.uniq || distinctImages (serAnyList xs)
+    | none => false)
+  | .seqOf _ f sz, v => (match seqLike v with
+    | some xs => xs.all (regF O f) && (!sz.uniq || distinctImages (mapE (ser O f) xs))
+    | none => false)
+  | .seqPos _ fs _ sz, v => (match seqLike v with
+    | some xs => regZip O fs xs && (!sz.uniq || distinctImages (serZip O fs xs))
+    | none => false)
+  | .setAny _ _, v => (match v with
+    | .set _ xs => distinctImages (serAnyList xs)
+    | _ => false)
   | .setOf _ f _, v => (match v with
-    | .set _ xs => PyVal.pyNodup xs && xs.all (regF O f)
+    | .set _ xs => xs.all (regF O f) && distinctImages (mapE (ser O f) xs)
     | _ => false)
-  | .tupleOf f _, v => (match v with
-    | .tuple xs => xs.all (regF O f)
+  | .tupleOf f u, v => (match v with
+    | .tuple xs => xs.all (regF O f) && (!u || distinctImages (mapE (ser O f) xs))
     | _ => false)
-  | .tuplePos fs _, v => (match v with | .tuple xs => regZip O fs xs | _ => false)
+  | .tuplePos fs u, v => (match v with
+    | .tuple xs => regZip O fs xs && (!u || distinctImages (serZip O fs xs))
+    | _ => false)
   | .mapAny _, _ => true
   | .mapOf _ vf _, v => (match v with | .dict kvs => kvs.all (fun kv => regF O vf kv.2) | _ => false)
   | .struct c fields defaults, v => (match v with
@@ -234,12 +254,46 @@ def RefsFaithfulP (D : Defs) : List (String × FieldDecl) → Prop
 termination_by structural ps => ps
 end
 
+mutual
+/-- every class reference inside the declaration resolves in the pointer table `D` (weaker than
+    `RefsFaithful`: it holds of the returned definitions for EVERY declaration, also when two
+    classes share a `__name__` — `Lemmas/SchemaDefs.lean`) -/
+def RefsResolve (D : Defs) : FieldDecl → Prop
+  | .seqOf _ f _ => RefsResolve D f
+  | .seqPos _ fs _ _ => RefsResolveL D fs
+  | .setOf _ f _ => RefsResolve D f
+  | .tupleOf f _ => RefsResolve D f
+  | .tuplePos fs _ => RefsResolveL D fs
+  | .mapOf _ v _ => RefsResolve D v
+  | .struct c fields _ =>
+    (c.inline = true ∨ (lookup ("#/definitions/" ++ c.name) D).isSome = true) ∧ RefsResolveP D fields
+  | .anyOf fs => RefsResolveL D fs
+  | .oneOf fs => RefsResolveL D fs
+  | .allOf fs => RefsResolveL D fs
+  | .notF fs => RefsResolveL D fs
+  | _ => True
+termination_by structural f => f
+def RefsResolveL (D : Defs) : List FieldDecl → Prop
+  | [] => True
+  | f :: fs => RefsResolve D f ∧ RefsResolveL D fs
+termination_by structural fs => fs
+def RefsResolveP (D : Defs) : List (String × FieldDecl) → Prop
+  | [] => True
+  | (_, f) :: ps => RefsResolve D f ∧ RefsResolveP D ps
+termination_by structural ps => ps
+end
+
 /-- the pointer table of the dialect-fixed definitions `structure_to_schema(cls, {})` returns -/
 def fixedPtrDefs (cls : FieldDecl) : Defs := ptrDefs (fixDefs (toSchema cls).2)
 
 /-- `RefsFaithful` for the fields of the top-level class -/
 def ClassRefsFaithful (D : Defs) : FieldDecl → Prop
   | .struct _ fields _ => RefsFaithfulP D fields
+  | _ => True
+
+/-- `RefsResolve` for the fields of the top-level class -/
+def ClassRefsResolve (D : Defs) : FieldDecl → Prop
+  | .struct _ fields _ => RefsResolveP D fields
   | _ => True
 
 /-! ### structural equality on JSON values (to make `RefsFaithful` checkable by evaluation) -/
@@ -304,11 +358,16 @@ def classRefsFaithfulB (D : Defs) : FieldDecl → Bool
 
 /-! ### well-formedness fragment -/
 
+/-- every default is written into the schema as a JSON value (an enum member by its name): excluded is
+    exactly the finding `ill-formed:default:not-json` (a set, a tuple, a list of enum members, …) -/
+def defaultsJson (defaults : List (String × PyVal)) : Bool :=
+  defaults.all (fun d => jsonOnly (defaultJ d.2))
+
 mutual
 /-- declarations whose emitted schema is a well-formed draft-4 document after the dialect fix.
     Excluded (each a finding or a raise): classes without any required or defaulted field
-    (`required: []`), `multiplesOf = 0`, empty positional `items`, empty / duplicated enums, raising kinds; and, corresponded
-    only: classes with defaults. -/
+    (`required: []`), `multiplesOf = 0`, empty positional `items`, empty / duplicated enums, raising kinds,
+    defaults that are not JSON values. -/
 def wfFragF : FieldDecl → Bool
   | .number o => numOptsOk o
   | .integer o => numOptsOk o
@@ -328,7 +387,7 @@ def wfFragF : FieldDecl → Bool
   | .mapOf k v _ => isStringField k && wfFragF v
   | .struct c fields defaults =>
     !(schemaRequired c defaults).isEmpty && nodupS (schemaRequired c defaults)
-    && defaults.isEmpty && wfFragP fields
+    && defaultsJson defaults && wfFragP fields
   | .anyOf fs => if optShape fs then wfFragOpt fs else !fs.isEmpty && wfFragL fs
   | .oneOf fs => !fs.isEmpty && wfFragL fs
   | .allOf fs => !fs.isEmpty && wfFragL fs
@@ -353,10 +412,30 @@ end
 /-- the top-level class may be a field wrapper (then its schema is the schema of its only field) -/
 def inWfFragment (cls : FieldDecl) : Bool :=
   match cls with
-  | .struct c fields defaults =>
-    !c.inline && (if collapses c (fields.map (·.1)) then defaults.isEmpty && wfFragP fields
-                  else wfFragF cls)
+  | .struct c fields _ =>
+    !c.inline && (if collapses c (fields.map (·.1)) then wfFragP fields else wfFragF cls)
   | _ => false
+
+/-! ### key-renaming mapper: the decidable side conditions of `schema_admits_renamed_partial` -/
+
+def docKeys (r : List (PyVal × PyVal)) : List String := r.filterMap (fun kv => docKey kv.1)
+
+/-- the key map is injective on the list of names -/
+def injOnB (km : KeyMap) (L : List String) : Bool :=
+  L.all fun a => L.all fun b => mapName km a != mapName km b || a == b
+
+/-- the in-place renaming of `required` ends with exactly the mapped required names (it does not when a
+    field is renamed onto the name of a later field: finding `admits:mapper-required-renamed-in-place`) -/
+def requiredFaithful (km : KeyMap) (c : ClassOpts) (defaults : List (String × PyVal)) (names : List String) : Bool :=
+  sameSet (requiredM km defaults names c.required) ((schemaRequired c defaults).map (mapName km))
+
+/-- no two names of the class / keys of the serialized document are mapped onto one key, and the
+    exported `required` is the image of the required names -/
+def renameSafe (km : KeyMap) (cls : FieldDecl) (j : PyVal) : Bool :=
+  match cls, j with
+  | .struct c fields defaults, .dict r =>
+    injOnB km (fields.map (·.1) ++ docKeys r) && requiredFaithful km c defaults (fields.map (·.1))
+  | _, _ => false
 
 /-! ### exact sub-fragment -/
 
